@@ -12,15 +12,16 @@ from .world import World
 
 # ------------------------------------------------------------------------------------------------ sync engine
 @contextlib.contextmanager
-def sync_engine(world: World, **selector_opts: Any):
+def sync_engine(world: World, selector_cls: type[SimSelector] = SimSelector, **selector_opts: Any):
     """Blocking API under simulation: virtual perf_counter + SimSelector as selectors.PollSelector.
 
     High-level sync clients have no selector_factory parameter; they look `selectors.PollSelector` up when the
     transport is constructed, so it is patched for the duration of the run.  Low-level transports can also be
-    given ``selector_factory=make_selector`` explicitly (yielded value)."""
+    given ``selector_factory=make_selector`` explicitly (yielded value).
+    ``selector_cls`` (a SimSelector subclass taking ``world``) lets a harness observe/perturb select() calls."""
 
     def make_selector() -> SimSelector:
-        s = SimSelector(world)
+        s = selector_cls(world)
         for k, v in selector_opts.items():
             setattr(s, k, v)
         return s
@@ -32,6 +33,27 @@ def sync_engine(world: World, **selector_opts: Any):
             yield make_selector
     finally:
         selectors.PollSelector = saved  # type: ignore[misc]
+
+
+class ProbeSelector(SimSelector):
+    """SimSelector that reports every select() call to ``world.select_probe(timeout)`` (if that attribute is set)
+    before waiting.  Used by oracles of the kind "this call must not wait" / "budget overrun" (C03, C11).
+    Pass as ``sync_engine(world, selector_cls=ProbeSelector)``."""
+
+    def select(self, timeout: float | None = None):
+        probe = getattr(self.world, "select_probe", None)
+        if probe is not None:
+            probe(timeout)
+        return super().select(timeout)
+
+
+def vsleep(world: World, dt: float) -> None:
+    """sync engine: the *caller thread* lets ``dt`` virtual seconds pass (world events run meanwhile);
+    ``dt == 0`` just runs the events that are already due."""
+    target = world.now + dt
+    world.run_due()
+    while world.now < target:
+        world.advance(target - world.now)
 
 
 # ------------------------------------------------------------------------------------------------ peers
@@ -165,3 +187,119 @@ def swarm_selector(world: World, sel: SimSelector) -> None:
     sel.hold_den = draw_rate(world, "sw.hold", (0, 0, 8, 3))
     sel.spurious_den = draw_rate(world, "sw.spurious", (0, 0, 0, 12))
     sel.reorder = bool(world.choose("sw.reorder", 2))
+
+
+# ------------------------------------------------------------------------------------------------ coincidence bias
+class AlignedFeed:
+    """Scripted byte feed towards the library whose visibility can be re-timed onto the waiter's next timer
+    (coincidence bias, DESIGN §2.3 item 4).  Owns ``peer_sock.tx_pipe``, which must be in manual delivery mode
+    (``Delivery(frag=5)``).
+
+    ``plan(t, data, defer)``: `data` becomes visible to the library's socket at virtual time `t`, `defer` loop
+    iterations later: 0 = by the world event itself, i.e. inside the ``select()`` call that reaches `t` (a timer due at
+    `t` then runs in the SAME loop iteration, after the read callback); 1 = at the start of the following ``select()``
+    call (= right after the timers of that iteration ran, before the tasks they woke are stepped); 2 = one more.
+    A deferred chunk is flushed as soon as the loop would block instead.  Chunks become visible strictly in plan order
+    (a chunk planned earlier than its predecessor's actual time follows it immediately).  ``plan_fin`` = FIN.
+
+    ``on_wait`` is a ``SimSelector.align`` hook: when the selector is about to block for `timeout` (loop: distance to
+    its next timer) and the head chunk is still pending, then with probability 1/align_den (once per chunk) the chunk
+    is re-timed to exactly ``now + timeout`` with a drawn `defer` from `offsets`; counted as fault ``coincide_timer``.
+    Deterministic: all draws go through the world.  ``log`` = [(time, loop_iteration, cumulative bytes | -1 for FIN)]."""
+
+    def __init__(self, world: World, peer_sock: SimSocket, *, align_den: int = 0, offsets: tuple[int, ...] = (0, 1, 2), name: str = "feed"):
+        from collections import deque
+
+        pipe = peer_sock.tx_pipe
+        assert pipe is not None and pipe.delivery.frag == 5, "AlignedFeed needs a manual-mode pipe (Delivery(frag=5))"
+        self.world = world
+        self.pipe: HalfPipe = pipe
+        self.name = name
+        self.align_den = align_den
+        self.offsets = offsets
+        self.queue: Any = deque()  # [t, data | None (FIN), defer, already_aligned]
+        self.gen = 0
+        self.armed = False
+        self.countdown: int | None = None
+        self.total = 0
+        self.fin_done = False
+        self.log: list[tuple[float, int, int]] = []
+        world.iteration_hooks.append(self._tick)
+
+    # ---- plan
+    def plan(self, t: float, data: bytes, defer: int = 0) -> None:
+        self.queue.append([t, bytes(data), defer, False])
+        self._arm()
+
+    def plan_fin(self, t: float, defer: int = 0) -> None:
+        self.queue.append([t, None, defer, False])
+        self._arm()
+
+    def idle(self) -> bool:
+        return not self.queue
+
+    # ---- machinery
+    def _arm(self) -> None:
+        if self.armed or self.countdown is not None or not self.queue:
+            return
+        self.gen += 1
+        self.armed = True
+        g = self.gen
+        self.world.at(max(self.queue[0][0], self.world.now), lambda: self._fire(g))
+
+    def _fire(self, g: int) -> None:
+        if g != self.gen or not self.armed:
+            return  # stale (re-timed)
+        self.armed = False
+        if self.queue[0][2] <= 0:
+            self._deliver()
+        else:
+            self.countdown = self.queue[0][2]
+
+    def _tick(self) -> None:
+        if self.countdown is not None:
+            self.countdown -= 1
+            if self.countdown <= 0:
+                self.countdown = None
+                self._deliver()
+
+    def _flush_deferred(self) -> None:
+        if self.countdown is not None:
+            self.countdown = None
+            self._deliver()
+
+    def _deliver(self) -> None:
+        _, data, _, _ = self.queue.popleft()
+        it = self.world.counters["loop_iterations"]
+        if data is None:
+            self.fin_done = True
+            self.log.append((self.world.now, it, -1))
+            self.pipe.deliver_fin()
+        else:
+            self.total += len(data)
+            self.log.append((self.world.now, it, self.total))
+            self.pipe.write(data)
+            self.pipe.deliver(len(data))
+        self._arm()
+
+    # ---- SimSelector.align hook
+    def on_wait(self, timeout: float | None) -> None:
+        w = self.world
+        if self.countdown is not None:
+            w.at(w.now, self._flush_deferred)  # the waiter goes idle: "next iteration" is now
+            return
+        if not self.armed or not self.align_den or timeout is None or timeout <= 0:
+            return
+        head = self.queue[0]
+        if head[3]:
+            return
+        if not w.chance("align", 1, self.align_den):
+            return
+        j = self.offsets[w.choose("align.off", len(self.offsets))]
+        head[0] = w.now + timeout
+        head[2] = j
+        head[3] = True
+        self.armed = False
+        self._arm()
+        w.fault("coincide_timer")
+        w.log("align", self.name, j)
